@@ -5,7 +5,7 @@ commit cited for the fallback estimate; warnings compared as sets of metric name
 import itertools
 import warnings
 
-from vf.harness import use_world, outcome, freeze, sample, guarded
+from vf.harness import use_world, outcome, freeze, sample, guarded, add_histories, history_of
 from vf.simk.world import World, PAGESIZE
 
 ID = "C08"
@@ -212,17 +212,17 @@ def run(ctx):
     cases = build_cases(ctx.thorough)
     n = max(1, len(cases) // (ctx.ncpu * 4))
     chunks = [(ctx.seed, cases[i:i + n]) for i in range(0, len(cases), n)]
-    res = [r for ch in ctx.pmap(worker, chunks, chunk=1) for r in ch]
+    res = [r for ch in ctx.pmap_fresh(worker, chunks) for r in ch]
     viols, kinds = [], {}
-    for c, bad in zip(cases, res):
+    for _i, (c, bad) in enumerate(zip(cases, res)):
         kinds[c[0]] = kinds.get(c[0], 0) + 1
         for cause, msg in bad:
-            viols.append({"cause": cause, "msg": msg, "case": list(c)})
+            viols.append({"cause": cause, "msg": msg, "case": list(c), "_idx": _i})
     cov = {"evaluations": len(cases), "distinct_nontrivial": len({repr(c) for c in cases}),
            "rule": "one evaluation = one /proc/meminfo (+zoneinfo/vmstat) content; all 2^14 subsets of the optional keys for each listed "
                    "regime; distinct by construction", "per_dimension": kinds, "regimes": list(REGIMES), "exhaustive": True,
            "samples": [list(c) for c in sample(cases, 6)]}
-    return {"coverage": cov, "violations": viols,
+    return {"coverage": cov, "violations": add_histories(viols, cases, n, list),
             "assumptions": ["when the available estimate falls outside [0,total] any value inside [0,total] is accepted (the statement "
                             "only says 'forced into')", "an 'available' warning is allowed when the estimate was negative"]}
 
@@ -230,5 +230,6 @@ def run(ctx):
 def replay(ctx, case):
     w = World(ncpus=2)
     use_world(w)
-    bad = guarded(run_case, tuple(case), w)
+    for c in history_of(case):
+        bad = guarded(run_case, tuple(c), w)
     return {"violated": bool(bad), "viols": bad}
